@@ -36,7 +36,15 @@ def impl_label(case) -> str:
     given = dict(kwargs)
     try:
         try:
-            make_graph(case["nodes"], [], case.get("lim")).visualize(**kwargs)
+            ev = make_graph(case.get("nodes_given") or case["nodes"], [], case.get("lim"))
+            if case.get("twice") and case["aliases"]:
+                # the same evaluable drawn before with other alias texts for the same modules: must not influence this call
+                try:
+                    ev.visualize(aliases={k: "ZZ" + v for k, v in case["aliases"]})
+                except Exception:  # noqa: BLE001
+                    pass
+                seen.clear()
+            ev.visualize(**kwargs)
         except KeyError as e:
             # which aliased module does the error name? Only aliased modules that really are absent are candidates
             # (an existing one-letter module name is a substring of any English sentence); the current wording is tried
@@ -74,7 +82,7 @@ def label_line(case) -> str:
     kw = list(case["kw"].keys()) + (["aliases"] if case["aliases"] is not None else [])
     al = enc_pairs(case["aliases"] or [])
     lim = "" if case.get("lim") is None else f" lim={case['lim']}"
-    return f"label nodes={enc_list(case['nodes'])} imps= al={al} kw={','.join(enc(k) if k not in ('spacing','aliases') else k for k in kw)}{lim}"
+    return f"label nodes={enc_list(case.get('nodes_given') or case['nodes'])} imps= al={al} kw={','.join(enc(k) if k not in ('spacing','aliases') else k for k in kw)}{lim}"
 
 
 def judge(ctx, stream, cases):
@@ -158,6 +166,17 @@ def run(ctx: Ctx):
         if rng.random() < 0.3:
             kw["ax"] = object()
         case = {"nodes": nodes, "aliases": al, "kw": kw}
+        r2 = rng.random()
+        if r2 < 0.2:
+            # the module list handed to the graph omits ancestor packages (as a scan with module_path below root_path does);
+            # the graph still contains them and they must be labelled / may be aliased
+            inner = [n for n in nodes if any(m.startswith(n + ".") for m in nodes)]
+            drop = set(rng.sample(inner, min(len(inner), rng.randint(1, 2)))) if inner else set()
+            given = [n for n in nodes if n not in drop]
+            if given:
+                case["nodes_given"] = given
+        elif r2 < 0.4:
+            case["twice"] = True
         if rng.random() < 0.2 and nodes:
             # a level-limited architecture: modules deeper than the limit do not exist in it, an alias for one is rejected
             case["lim"] = rng.randint(0, max(0, max(n.count(".") for n in nodes) - 1))
